@@ -68,6 +68,21 @@ func compileToGetCodeSetSlowPath(typeptr uintptr) (*OpcodeSet, error) {
 	return codeSet, nil
 }
 
+// CompileToGetCodeSet returns the program for the type and keeps it reachable from the context
+// until the end of the call. While the interpreter runs a nested program (a recursive struct, the
+// dynamic type of an interface) it remembers where to return only as a uintptr slot, so a program
+// that is not (or no longer) in the cache - several goroutines compiled the same type or the same
+// field query at the same time and all but one lost the publication - would otherwise be
+// collected while it is still being executed.
+func CompileToGetCodeSet(ctx *RuntimeContext, typeptr uintptr) (*OpcodeSet, error) {
+	codeSet, err := compileToGetCodeSet(ctx, typeptr)
+	if err != nil {
+		return nil, err
+	}
+	ctx.KeepRefs = append(ctx.KeepRefs, unsafe.Pointer(codeSet))
+	return codeSet, nil
+}
+
 func getFilteredCodeSetIfNeeded(ctx *RuntimeContext, codeSet *OpcodeSet) (*OpcodeSet, error) {
 	if (ctx.Option.Flag & ContextOption) == 0 {
 		return codeSet, nil
